@@ -102,7 +102,7 @@ static void chip_write(int a, uint8_t v) {
 
 // ------------------------------------------------------------------ per-operation context
 #define MAXEV 64
-typedef struct { int at; char text[160]; } sched_ev_t;
+typedef struct { int at; char text[700]; } sched_ev_t;
 static sched_ev_t sched[MAXEV];
 static int nsched;
 typedef struct { int at; int code; } fault_t;
@@ -144,7 +144,7 @@ static void env_apply(char *text);
 static int pre_transfer(void) {
   for (int i = 0; i < nsched; i++) {
     if (sched[i].at == xfer) {
-      char tmp[160];
+      char tmp[700];
       strcpy(tmp, sched[i].text);
       env_apply(tmp);
     }
@@ -707,7 +707,7 @@ int main(int argc, char **argv) {
 #endif
   verbose = getenv("SXH_VERBOSE") != NULL;
   static char line[20000];
-  setvbuf(stdout, NULL, _IOFBF, 1 << 16);
+  setvbuf(stdout, NULL, _IOLBF, 1 << 16);
   while (fgets(line, sizeof line, stdin)) {
     size_t ln = strlen(line);
     while (ln > 0 && (line[ln - 1] == '\n' || line[ln - 1] == '\r' || line[ln - 1] == ' ')) line[--ln] = 0;
@@ -763,7 +763,7 @@ int main(int argc, char **argv) {
       continue;
     }
     if (!strcmp(name, "env")) {
-      char tmp[400];
+      char tmp[1400];
       tmp[0] = 0;
       for (int i = 1; i < n; i++) {
         strcat(tmp, tok[i]);
@@ -803,6 +803,15 @@ int main(int argc, char **argv) {
     current_op = name;
 #endif
     int rc = run_api(tok, n, out, sizeof out);
+    // scheduled events the operation did not reach happen right after it
+    for (int i = 0; i < nsched; i++) {
+      if (sched[i].at >= xfer) {
+        char tmp[700];
+        strcpy(tmp, sched[i].text);
+        env_apply(tmp);
+      }
+    }
+    nsched = 0;
     printf("%s rc=%x%s cb=%s spi=%s", name, rc, out, cblog_len ? cblog : "", spilog_len ? spilog : "");
     print_handle();
     printf(" uf=%u of=%u\n", chip.underflow, chip.overflow);
